@@ -481,6 +481,9 @@ def general(prog, rep):
     rep.floor("C02.6", 4)
 
 
+# generic robustness battery: renaming every local/parameter in these files must not change any verdict
+RENAME_LOCALS = ['src/prwlock-posix.c', 'src/prwlock-general.c']
+
 SELFTEST = [
     dict(id="posix-try-blocks", file="src/prwlock-posix.c", expect="C02.1",
          old="return (pthread_rwlock_trywrlock (&lock->hdl) == 0) ? TRUE : FALSE;", new="return (pthread_rwlock_wrlock (&lock->hdl) == 0) ? TRUE : FALSE;"),
